@@ -232,8 +232,24 @@ def tests(inp, out, jobs):
         print(f"  {r['file']}:{r['line']} {r['function']} [{r['op']}] {r['desc']}: {r['text']}")
 
 
+def recheck(inp, jobs):
+    """Re-run the checks on the survivors of an earlier sweep (after rules were strengthened)."""
+    done = json.load(open(inp))
+    live = [r for r in done if r.get("tests_missing") == 0 or (0 < r.get("tests_missing", -1) <= 2 and all("test_issue_515" in x or "draw.draw" in x for x in r["tests_missing_names"]))]
+    with ProcessPoolExecutor(max_workers=jobs) as ex:
+        res = list(ex.map(run_checks_on, live, chunksize=2))
+    still = [r for r in res if not r["hits"]]
+    print(f"{len(live)} survivors re-checked: now reported {sum(1 for r in res if r['hits'])}, still silent {len(still)}")
+    for r in res:
+        tag = ",".join(f"{p}:{'/'.join(rs)}" for p, rs in r["hits"]) or ("exit2:" + ",".join(r["exit2"]) if r["exit2"] else "SILENT")
+        print(f"  {tag:28s} {r['file']}:{r['line']} {r['function']} [{r['op']}] {r['desc']}: {r['text'][:70]}")
+
+
 if __name__ == "__main__":
     cmd = sys.argv[1]
+    if cmd == "recheck":
+        recheck(sys.argv[2], int(sys.argv[3]) if len(sys.argv) > 3 else 16)
+        sys.exit(0)
     if cmd == "gen":
         gen(sys.argv[2], sys.argv[3:])
     elif cmd == "checks":
